@@ -57,6 +57,8 @@ def run_jobs(c, name, fn, jobs, rule="", nworkers=None, deadline_s=120, confirm=
     t0 = time.time()
     workroot = os.path.join(c.work, "pty")
     os.makedirs(workroot, exist_ok=True)
+    # VERIF_SWEEP_CAP_S: optional upper bound on any layer's time budget (the layer then reports the cap it hit)
+    deadline_s = min(deadline_s, float(os.environ.get("VERIF_SWEEP_CAP_S", "1e12")))
     fzf = fzf or P.FZF
     P.set_fzf(fzf, workroot)
     P.become_subreaper()
